@@ -476,7 +476,14 @@ class Ceremony:
                 return
             if f == 'dup':
                 w.fault('msg_dup', src=c.cid)
-                self.inflight.append(dict(msg))
+                dup = dict(msg)
+                if form != 'raw':
+                    # a second copy of the message, not a second reference to the same object (the receiver's import
+                    # shares input / output objects with what it is given)
+                    okd, dup_payload = self.quiet(lambda: copy.deepcopy(payload))
+                    if okd:
+                        dup['payload'] = dup_payload
+                self.inflight.append(dup)
         self.inflight.append(msg)
         if not self.msg_faults or ch.coin('deliver_now', 0.6):
             self.deliver(len(self.inflight) - 1)
